@@ -65,14 +65,15 @@ theorem redaction_only_sensitive (k : Str) (h : redacted k = true) : Spec.isSens
 
 /-- Router.Updates and Router.View install, before running the user function, a deferred function that on a panic
     aborts the transaction and then re-raises the same value, and aborts on the normal path too; Handle, HandleRoute,
-    Update, UpdateRoute and Delete `defer txn.Abort()` before the operation (regenerated from fox.go). -/
+    Update, UpdateRoute and Delete `defer txn.Abort()` before the operation, and MustHandle opens no transaction of its
+    own but goes through Handle (regenerated from fox.go). -/
 theorem updates_abort_on_all_paths :
     Generated.updates_deferBeforeFn = true ∧ Generated.updates_recovers = true ∧
     Generated.updates_abortOnPanicPath = true ∧ Generated.updates_repanics = true ∧
     Generated.updates_abortOnNormalPath = true ∧
     Generated.view_deferBeforeFn = true ∧ Generated.view_recovers = true ∧ Generated.view_abortOnPanicPath = true ∧
     Generated.view_repanics = true ∧ Generated.view_abortOnNormalPath = true ∧
-    Generated.singleOpDeferAbortFirst = [true, true, true, true, true] := by decide
+    Generated.singleOpDeferAbortFirst = [true, true, true, true, true, true] := by decide
 
 /-! ### non-vacuity -/
 
